@@ -15,7 +15,11 @@ import (
 
 type Run struct {
 	Variant int    `json:"variant"` // content of the binary: 0, 1, …
-	Sched   string `json:"sched"`   // ok | missing | fail:<j> | kill:<j>
+	Sched   string `json:"sched"`   // ok | missing | fail:<j> | kill:<j> | fsize:<q> (write fails after q/12 of the bytes; q = 12: only the last byte is refused)
+	// Hash, when set, makes this a *direct* run: doObjdump(target, Hash) is called in a build of the
+	// profiler that has one extra file (go build -overlay) — the way to hand the function hashes that
+	// SHA-256 will not produce on demand (common prefixes, the empty string of the swallowed error).
+	Hash *string `json:"hash,omitempty"`
 }
 
 type History struct {
@@ -23,6 +27,11 @@ type History struct {
 }
 
 const cacheChunks = 6 // must equal Driver.Cache.nchunks
+
+// the variant whose whole cache file is smaller than bufio's buffer (measured here: with a longer
+// listing only the first 4096 bytes go through the buffer, then (*bufio.Writer).ReadFrom hands the
+// pipe to (*os.File).ReadFrom and the final Flush has nothing left to write)
+const smallVariant = 2
 
 type cacheRig struct {
 	e        *env
@@ -35,6 +44,7 @@ type cacheRig struct {
 	cold     map[int]string // variant → stdout of a cold-cache run
 	coldN    map[int]int    // variant → number of names in it
 	dumpFile string
+	direct   string // the profiler built with the direct-call file
 }
 
 func (c *cacheRig) content(v int) []byte {
@@ -74,10 +84,19 @@ func newCacheRig(e *env, rng *rand.Rand) (*cacheRig, error) {
 		// 48 functions with distinct syscalls, spread evenly; a variant uses its own selection
 		var sites []site
 		perm := rng.Perm(len(nums))
-		for i := 0; i < 48; i++ {
+		nsites, pad := 48, 40 // ≈ 48 × 44 lines × 45 bytes ≈ 85 KB: after the first 4 KB the copy loop writes straight to the file
+		if v == smallVariant {
+			// header + listing fit into the 4 KB bufio.Writer: nothing reaches the file before Flush
+			nsites, pad = 12, 1
+		}
+		for i := 0; i < nsites; i++ {
 			sites = append(sites, randSite(rng, nums[perm[i]]))
 		}
-		c.listings[v] = listing("amd64", sites, 40) // ≈ 48 × 44 lines × 45 bytes ≈ 95 KB: every chunk overflows bufio's 4 KB
+		text := listing("amd64", sites, pad)
+		c.listings[v] = text
+	}
+	if c.direct, err = buildDirect(e); err != nil {
+		return nil, err
 	}
 	// cold-cache reference outputs
 	for v := 0; v < 3; v++ {
@@ -124,10 +143,21 @@ func (c *cacheRig) run(r Run) procResult {
 	case "kill":
 		p.Sync, p.PassUntil, killAt = true, j, j
 	}
+	var fsize int64 = -1
+	if kind == "fsize" {
+		total := int64(65 + len(c.listings[r.Variant]))
+		fsize = total * int64(j) / 12
+		if j >= 12 {
+			fsize = total - 1 // only the last byte is refused
+		}
+	}
 	data, _ := json.Marshal(p)
 	os.WriteFile(filepath.Join(c.ctl, "plan.json"), data, 0o644)
 	chownR(c.ctl)
-	return c.e.runProfiler(c.home, path, c.ctl, []string{"-format", "config", c.target}, killAt)
+	if r.Hash != nil {
+		return c.e.runBinary(c.direct, []string{"VPROF_DIRECT=1", "VPROF_BINARY=" + c.target, "VPROF_HASH=" + *r.Hash}, c.home, path, c.ctl, nil, killAt, fsize)
+	}
+	return c.e.runBinary(c.e.profiler, nil, c.home, path, c.ctl, []string{"-format", "config", c.target}, killAt, fsize)
 }
 
 // cacheState classifies the final cache path.
@@ -156,7 +186,9 @@ func logState(stderr string) string {
 
 func genHistory(r *rand.Rand) History {
 	faulty := func() string {
-		switch r.Intn(7) {
+		switch r.Intn(9) {
+		case 7, 8:
+			return fmt.Sprintf("fsize:%d", r.Intn(13))
 		case 0:
 			return "missing"
 		case 1, 2:
@@ -167,7 +199,7 @@ func genHistory(r *rand.Rand) History {
 		return fmt.Sprintf("kill:%d", r.Intn(cacheChunks+1))
 	}
 	var h History
-	v := r.Intn(2)
+	v := r.Intn(3)
 	nf := 1 + r.Intn(2)
 	for i := 0; i < nf; i++ {
 		h.Runs = append(h.Runs, Run{Variant: v, Sched: faulty()})
@@ -183,14 +215,15 @@ func genHistory(r *rand.Rand) History {
 }
 
 func runCache(e *env, replayCases []string) error {
-	e.sum.Rule = "histories of the built seccomp-profiler over one private cache directory: faulty runs (disassembler missing, exiting non-zero after j of 6 chunks, profiler SIGKILLed at chunk boundary j, binary rebuilt in between) followed by normal runs; every run's exit status, final cache path (absent / complete for variant v / other) and log line (hit / written) are compared with CacheSpec.doObjdump, and every normal run's stdout with the cold-cache output; systematic part: every boundary j for kill and fail; a history is non-trivial if it contains a faulty run; distinct by history"
+	e.sum.Rule = "histories of the built seccomp-profiler over one private cache directory: faulty runs (disassembler missing, exiting non-zero after j of 6 chunks, profiler SIGKILLed at chunk boundary j, write(2) to the temporary file failing with EFBIG after q/12 of the bytes — for the small variant, whose whole cache file fits into bufio's 4 KB buffer, that write is the final Flush —, binary rebuilt in between; plus direct calls of doObjdump with hashes sharing 32/63/0 leading characters and with the empty hash) followed by normal runs; every run's exit status, final cache path (absent / complete for variant v / other) and log line (hit / written) are compared with CacheSpec.doObjdump, and every normal run's stdout with the cold-cache output; systematic part: every boundary j for kill and fail; a history is non-trivial if it contains a faulty run; distinct by history"
 	rng := rand.New(rand.NewSource(*seed))
 	c, err := newCacheRig(e, rng)
 	if err != nil {
 		return err
 	}
 	e.sum.Extra = map[string]interface{}{"chunks": cacheChunks, "listing_bytes": len(c.listings[0]), "cold_names": c.coldN,
-		"crash_points_on_the_real_binary": "sampled: the profiler is killed while the disassembler has printed j of 6 chunks (j = 0..6); crash points inside Flush/Close/Rename are covered by the theorem only"}
+		"crash_points_on_the_real_binary": "sampled: the profiler is SIGKILLed while the disassembler has printed j of 6 chunks (j = 0..6); I/O faults are sampled as EFBIG at 13 file sizes (RLIMIT_FSIZE); crash points between Flush, Close and Rename are covered by the theorem only",
+		"small_variant_bytes": 65 + len(c.listings[smallVariant])}
 	var hs []History
 	if len(replayCases) > 0 {
 		for _, s := range replayCases {
@@ -202,13 +235,22 @@ func runCache(e *env, replayCases []string) error {
 	} else {
 		// systematic part
 		for j := 0; j <= cacheChunks; j++ {
-			hs = append(hs, History{Runs: []Run{{0, fmt.Sprintf("kill:%d", j)}, {0, "ok"}}})
-			hs = append(hs, History{Runs: []Run{{0, fmt.Sprintf("fail:%d", j)}, {0, "ok"}}})
+			hs = append(hs, History{Runs: []Run{{Variant: 0, Sched: fmt.Sprintf("kill:%d", j)}, {Variant: 0, Sched: "ok"}}})
+			hs = append(hs, History{Runs: []Run{{Variant: 0, Sched: fmt.Sprintf("fail:%d", j)}, {Variant: 0, Sched: "ok"}}})
 		}
-		hs = append(hs, History{Runs: []Run{{0, "missing"}, {0, "ok"}}})
-		hs = append(hs, History{Runs: []Run{{0, "ok"}, {0, "ok"}}})
-		hs = append(hs, History{Runs: []Run{{0, "ok"}, {1, "kill:3"}, {1, "ok"}, {0, "ok"}}})
-		hs = append(hs, History{Runs: []Run{{0, "ok"}, {0, "kill:2"}, {0, "ok"}}})
+		for _, q := range []int{0, 1, 4, 8, 11, 12} {
+			hs = append(hs, History{Runs: []Run{{Variant: 0, Sched: fmt.Sprintf("fsize:%d", q)}, {Variant: 0, Sched: "ok"}}})
+			hs = append(hs, History{Runs: []Run{{Variant: smallVariant, Sched: fmt.Sprintf("fsize:%d", q)}, {Variant: smallVariant, Sched: "ok"}}})
+		}
+		for _, j := range []int{0, 3, 6} {
+			hs = append(hs, History{Runs: []Run{{Variant: smallVariant, Sched: fmt.Sprintf("kill:%d", j)}, {Variant: smallVariant, Sched: "ok"}}})
+			hs = append(hs, History{Runs: []Run{{Variant: smallVariant, Sched: fmt.Sprintf("fail:%d", j)}, {Variant: smallVariant, Sched: "ok"}}})
+		}
+		hs = append(hs, History{Runs: []Run{{Variant: 0, Sched: "missing"}, {Variant: 0, Sched: "ok"}}})
+		hs = append(hs, History{Runs: []Run{{Variant: 0, Sched: "ok"}, {Variant: 0, Sched: "ok"}}})
+		hs = append(hs, History{Runs: []Run{{Variant: 0, Sched: "ok"}, {Variant: 1, Sched: "kill:3"}, {Variant: 1, Sched: "ok"}, {Variant: 0, Sched: "ok"}}})
+		hs = append(hs, History{Runs: []Run{{Variant: 0, Sched: "ok"}, {Variant: 0, Sched: "kill:2"}, {Variant: 0, Sched: "ok"}}})
+		hs = append(hs, directHistories()...)
 		for i := 0; i < *n; i++ {
 			hs = append(hs, genHistory(rng))
 		}
@@ -225,12 +267,24 @@ func runCache(e *env, replayCases []string) error {
 				nontrivial = true
 			}
 		}
-		e.count(string(hj), nontrivial)
-		reply, err := e.model.Ask(req)
-		if err != nil {
-			return err
+		direct := false
+		for _, r := range h.Runs {
+			if r.Hash != nil {
+				direct, nontrivial = true, true
+				e.tag("direct-call")
+			}
 		}
-		want := strings.Split(reply, " | ")
+		e.count(string(hj), nontrivial)
+		reply := "(direct call of doObjdump with a given hash: property only)"
+		want := make([]string, len(h.Runs))
+		if !direct {
+			var err error
+			reply, err = e.model.Ask(req)
+			if err != nil {
+				return err
+			}
+			want = strings.Split(reply, " | ")
+		}
 		if len(want) != len(h.Runs) {
 			e.mismatch(Mismatch{Case: fmt.Sprint(i), Request: "vprof:cache: " + string(hj), Model: reply, Note: "malformed model reply"})
 			continue
@@ -238,33 +292,49 @@ func runCache(e *env, replayCases []string) error {
 		c.reset()
 		var got []string
 		bad := false
+		var diff *Mismatch // first difference from the specification (the history is still run to its end)
 		for k, r := range h.Runs {
 			res := c.run(r)
 			obs := fmt.Sprintf("%s %s %s", res.Status, c.cacheState(), logState(res.Stderr))
 			got = append(got, obs)
 			e.tag("run:" + obs)
 			prefix, _ := json.Marshal(History{Runs: h.Runs[:k+1]})
+			if r.Hash != nil {
+				// doObjdump(target, hash) itself: an error, or a file that is complete for that hash
+				if content, ok := directFile(res); res.Status == "ok" && (!ok || content != *r.Hash+"\n"+c.listings[r.Variant]) {
+					bad = true
+					what := "a file that does not start with the hash it was asked for"
+					if strings.HasPrefix(content, *r.Hash+"\n") {
+						what = "a file with the right hash line but another listing"
+					}
+					e.mismatch(Mismatch{Case: fmt.Sprint(i), Request: "vprof:cache: " + string(hj), Go: strings.Join(got, " | "), Model: reply,
+						Note:         fmt.Sprintf("run %d: doObjdump(%q, %q) returned %s (%d bytes; complete would be %d bytes); log: %s", k, c.target, *r.Hash, what, len(content), len(*r.Hash)+1+len(c.listings[r.Variant]), logState(res.Stderr)),
+						FailingInput: fmt.Sprintf("history %s: run %d calls doObjdump(binary, hash=%q) over the cache the earlier runs left; it returns nil and %s", prefix, k, *r.Hash, what),
+						Key:          "cache:direct:" + schedKey(h.Runs[:k+1])})
+					diff = nil
+					break
+				}
+				continue
+			}
 			// the property itself: a normal run yields the cold-cache profile, or fails
 			if r.Sched == "ok" && res.Status == "ok" && res.Stdout != c.cold[r.Variant] {
 				bad = true
 				e.mismatch(Mismatch{Case: fmt.Sprint(i), Request: "vprof:cache: " + string(hj), Go: strings.Join(got, " | "), Model: reply,
-					Note:         fmt.Sprintf("run %d: profile with %d syscalls, the cold-cache profile has %d; cache file: %s", k, countNames(res.Stdout), c.coldN[r.Variant], c.cacheState()),
-					FailingInput: fmt.Sprintf("fault schedule %s (run %d is a normal run and exits 0 with a profile of %d syscalls instead of %d)", prefix, k, countNames(res.Stdout), c.coldN[r.Variant]),
+					Note:         fmt.Sprintf("run %d: profile with %d syscalls, the cold-cache profile has %d; cache file: %s; log: %s", k, countNames(res.Stdout), c.coldN[r.Variant], c.cacheState(), logState(res.Stderr)),
+					FailingInput: fmt.Sprintf("fault schedule %s: run %d is a normal run over the cache the earlier runs left behind; it exits 0 with a profile of %d syscalls, the cold-cache profile has %d", prefix, k, countNames(res.Stdout), c.coldN[r.Variant]),
 					Key:          "cache:" + schedKey(h.Runs[:k+1])})
+				diff = nil
 				break
 			}
-			if obs != want[k] {
-				bad = true
-				m := Mismatch{Case: fmt.Sprint(i), Request: "vprof:cache: " + string(hj), Go: strings.Join(got, " | "), Model: reply,
+			if !direct && obs != want[k] && diff == nil {
+				diff = &Mismatch{Case: fmt.Sprint(i), Request: "vprof:cache: " + string(hj), Model: reply,
 					Note: fmt.Sprintf("run %d (%s): observed `%s`, specification `%s`; stderr: %s", k, r.Sched, obs, want[k], lastLines(res.Stderr, 3))}
-				// a cache path that is neither absent nor complete is itself the defect the property excludes
-				if strings.HasSuffix(strings.Fields(obs)[1], "other") {
-					m.FailingInput = fmt.Sprintf("fault schedule %s leaves an incomplete file at the cache path %s", prefix, c.dumpFile)
-					m.Key = "cache:" + schedKey(h.Runs[:k+1])
-				}
-				e.mismatch(m)
-				break
 			}
+		}
+		if diff != nil {
+			bad = true
+			diff.Go = strings.Join(got, " | ")
+			e.mismatch(*diff)
 		}
 		if !bad {
 			e.sample(string(hj) + "  =>  " + strings.Join(got, " | "))
